@@ -10,6 +10,7 @@ import (
 
 	"verif/core"
 	"verif/model"
+	"verif/runner"
 	"verif/smfdec"
 	"verif/theory"
 )
@@ -371,6 +372,81 @@ func checkC10(c *core.Ctx) {
 			return
 		}
 		c.Nontrivial(fmt.Sprintf("doc%d", i))
+	})
+
+	// large pieces: the interchange document grows far beyond any buffer size (64 KiB, 1 MiB)
+	c.Stream("large", c.N(3, 12), func(i int, r *rand.Rand) {
+		n := []int{1500, 3000, 700, 6000}[i%4]
+		p := model.RandPiece(r, model.GenOpts{MinLen: n, MaxLen: n, RestProb: 0.1, SettingProb: 0.02, TextProb: 0.05, KeyChanges: true, BassProb: 0.3, MaxDeg: 9, SimpleOnly: true, TextSafe: true})
+		if i%2 == 1 { // one very long lyric
+			p.Inst[1].Meta = map[string]string{"lic": strings.Repeat("la ", 30000) + "end"}
+		}
+		text, ok := p.DegreeTextPiece(model.TextOpts{})
+		if !ok {
+			return
+		}
+		pm := model.Piece{Inst: append([]model.Instance(nil), p.Inst...)}
+		for j := range pm.Inst {
+			in := pm.Inst[j]
+			meta := map[string]string{}
+			for _, kv := range in.MetaPairs() {
+				meta[kv[0]] = kv[1]
+			}
+			in.Meta = nil
+			if len(meta) > 0 {
+				in.Meta = meta
+			}
+			pm.Inst[j] = in
+		}
+		if !pm.AllInRange() || !pm.TotalBelow(960, 1<<28) {
+			return
+		}
+		conv := run(c, []byte(text), "text", "conv", "degree")
+		c.Eval(1)
+		if infra(c, conv) {
+			return
+		}
+		det := map[string]any{"chords": n, "text_bytes": len(text), "yaml_bytes": len(conv.Stdout)}
+		if a := abnormal(conv); a != "" || !conv.OK() {
+			c.Violate("large", i, "large:conv-failed", fmt.Sprintf("text conv refuses a text of %d instances %s", n, a), mergeMaps(det, map[string]any{"run": obs(conv)}))
+			return
+		}
+		for _, via := range []string{"stdin", "file"} {
+			var w *runner.Result
+			if via == "stdin" {
+				w = run(c, conv.Stdout, "write")
+			} else {
+				w = run(c, nil, "write", c.Scratch.File("large.yml", conv.Stdout))
+			}
+			c.Eval(1)
+			if infra(c, w) {
+				return
+			}
+			if a := abnormal(w); a != "" || !w.OK() {
+				c.Violate("large", i, "large:write-refuses:"+via, fmt.Sprintf("crd write (%s) refuses the %d byte document text conv printed for %d instances %s", via, len(conv.Stdout), n, a), mergeMaps(det, map[string]any{"run": obs(w)}))
+				return
+			}
+			f, derr := decodeSMF(w.Stdout)
+			if f == nil {
+				c.Violate("large", i, "large:decode", derr, det)
+				return
+			}
+			if probs := smfProblems(f, pm); len(probs) > 0 {
+				c.Violate("large", i, "large:music-differs:"+via, fmt.Sprintf("text conv | write (%s) of %d instances: %s", via, n, probs[0]), det)
+				return
+			}
+		}
+		wc := run(c, conv.Stdout, "write", "conv", "-c", "cmt")
+		c.Eval(1)
+		if infra(c, wc) {
+			return
+		}
+		if l, err := yamlList(wc.Stdout); !wc.OK() || err != nil || len(l) != len(p.Inst) {
+			c.Violate("large", i, "large:write-conv", fmt.Sprintf("write conv of a %d instance document prints %d instances (ok=%v)", len(p.Inst), len(l), wc.OK()), det)
+			return
+		}
+		c.Nontrivial(fmt.Sprintf("large%d", i))
+		c.Count("large_document_bytes", len(conv.Stdout))
 	})
 
 	// library level scalars
